@@ -439,6 +439,38 @@ theorem refused_only_without_filters (w : World) (st : State) (host : Bool) (ds 
     exact ⟨hc.1.1, hc.1.2, hc.2⟩
   · cases h
 
+/-! ### loads do not wear the registry out -/
+
+/-- a load is a look-up as far as the registry state goes, and its content is the post-filter with
+the allow-list that look-up returned (the whole file when that is empty) -/
+theorem loads_are_lookups (w : World) (st : State) (ds : Comp) (file : List Str) :
+    (loadArchive w st ds file).1 = stepOp w st (.get ds) ∧
+    (loadArchive w st ds file).2 =
+      (if (getFilters w st ds).2.1.isEmpty then file else filterContent file (getFilters w st ds).2.1) := by
+  constructor
+  · rfl
+  · simp [loadArchive, providerContent]
+
+/-- **loads are invisible**: after any history, loading any file of any datasource leaves every
+later look-up (of any component) exactly as it was — budgets are per load, never cumulated across
+loads, and no filter string disappears from the set in force -/
+theorem load_leaves_filters_in_force (w : World) (ops : List Op) (ds c : Comp) (file : List Str) :
+    (getFilters w (loadArchive w (run w ops) ds file).1 c).2.1 = (getFilters w (run w ops) c).2.1 := by
+  have h1 : (loadArchive w (run w ops) ds file).1 = run w (ops ++ [.get ds]) := by
+    simp [loadArchive, run, List.foldl_append, stepOp]
+  rw [h1, get_is_recomputed, get_is_recomputed]
+  have : (run w (ops ++ [.get ds])).reg = (run w ops).reg := by
+    simp [run, List.foldl_append, stepOp, getFilters_reg]
+  rw [this]
+
+/-- so the n-th load of a datasource returns what the first would: the content depends on the file
+and on the registrations only -/
+theorem repeated_loads_agree (w : World) (ops : List Op) (ds : Comp) (file1 file2 : List Str) :
+    (loadArchive w (loadArchive w (run w ops) ds file1).1 ds file2).2 = (loadArchive w (run w ops) ds file2).2 := by
+  have := load_leaves_filters_in_force w ops ds ds file1
+  simp only [loadArchive] at this ⊢
+  rw [this]
+
 /-! ## non-vacuity -/
 
 def exAllow : Allow := [("a".toList, 1), ("b".toList, 2)]
@@ -470,5 +502,6 @@ example : FirstDs exWorld 2 0 := FirstDs.step (by decide) (by decide) (FirstDs.h
 example : Reach exWorld 1 0 := Reach.step (by decide) (by decide) (Reach.here (by decide))
 example : filterContent exLines [("a".toList, 6), ("b".toList, 7)] = grepF ["a".toList, "b".toList] exLines := by decide
 example : specFilterable exWorld 1 = true := by decide
+example : (loadArchive exWorld (run exWorld [.add 0 (some ["b".toList]) (some 1)]) 1 exLines).2 = ["ab".toList] := by decide
 
 end IV.Filters
